@@ -257,7 +257,14 @@ func (b AcraBlock) EncryptedDataEncryptionKeyLength() int {
 
 // Decrypt AcraBlock using all keys sequentially until successful decryption and context
 func (b AcraBlock) Decrypt(keys [][]byte, context []byte) ([]byte, error) {
+	if len(b) < AcraBlockMinSize {
+		return nil, ErrInvalidAcraBlock
+	}
 	keySize := b.EncryptedDataEncryptionKeyLength()
+	// length of the encrypted key is a part of the block and can't be trusted
+	if AcraBlockMinSize+keySize > len(b) {
+		return nil, ErrInvalidAcraBlock
+	}
 	encryptedKey := b[EncryptedDataEncryptionKeyPosition : EncryptedDataEncryptionKeyPosition+keySize]
 	encryptedData := b[AcraBlockMinSize+keySize:]
 	keyEncryptionKeyBackend := b.KeyEncryptionBackend()
@@ -307,7 +314,8 @@ func ExtractAcraBlockFromData(data []byte) (int, AcraBlock, error) {
 		validMask <<= 1
 	}
 	restLength := binary.LittleEndian.Uint64(data[RestAcraBlockLengthPosition : RestAcraBlockLengthPosition+RestAcraBlockLengthSize])
-	if len(data) >= int(restLength+TagBeginSize) {
+	// compare without adding to the untrusted value: the sum can overflow
+	if restLength <= uint64(len(data)-TagBeginSize) && restLength >= uint64(AcraBlockMinSize-TagBeginSize) {
 		validMask <<= 1
 	}
 	_, ok := keyEncryptionBackendTypeMap[KeyEncryptionBackendType(data[KeyEncryptionKeyTypePosition])]
